@@ -524,6 +524,13 @@ def main(argv=None):
         return ctx.finish()
     except MachineryError as e:
         print('MACHINERY-ERROR property=%s: %s' % (prop, e), flush=True)
+        if ctx.violations:
+            # a violation with its replay was already reported: a later failure of the machinery must not mask it
+            ctx.extra['incomplete_run'] = 'machinery error after a reported violation: %s' % str(e)[:300]
+            try:
+                return ctx.finish()
+            except Exception:  # noqa
+                return EXIT_VIOLATION
         return EXIT_MACHINERY
     except Exception as e:  # noqa
         # An exception nobody expected.  If it was raised inside skyllh (a frame of the traceback lies in the repository under
@@ -545,4 +552,12 @@ def main(argv=None):
             except Exception:  # noqa
                 return EXIT_VIOLATION
         print('MACHINERY-ERROR property=%s: unexpected %s in the harness itself:\n%s' % (prop, type(e).__name__, text[-3000:]), flush=True)
+        if ctx.violations and not a.replay:
+            # a violation with its replay was already reported: a later crash of the harness must not mask it (exit 1, run marked
+            # incomplete in the evidence)
+            ctx.extra['incomplete_run'] = 'harness exception after a reported violation: %s: %s' % (type(e).__name__, str(e)[:300])
+            try:
+                return ctx.finish()
+            except Exception:  # noqa
+                return EXIT_VIOLATION
         return EXIT_MACHINERY
